@@ -311,9 +311,9 @@ func genOpReq(r *rng.R) *opReq {
 	sel := -1
 	if len(ops) == 1 {
 		switch x := r.Intn(20); {
-		case x < 12:
+		case x < 12 || (x < 18 && ops[0].Name == ""):
 			sel = 0
-		case x < 17 && ops[0].Name != "":
+		case x < 18:
 			o.OpName, sel = ops[0].Name, 0
 		case x < 19:
 			o.OpName = "Nope"
@@ -324,11 +324,11 @@ func genOpReq(r *rng.R) *opReq {
 		}
 	} else {
 		switch x := r.Intn(20); {
-		case x < 15:
+		case x < 17:
 			sel = r.Intn(len(ops))
 			o.OpName = ops[sel].Name
 			o.Classes = append(o.Classes, "opname-select")
-		case x < 18:
+		case x < 19:
 			o.Classes = append(o.Classes, "opname-missing")
 		default:
 			o.OpName = "Nope"
